@@ -133,6 +133,93 @@ def _valid_text(rng, ast, obj, h, w):
     return None
 
 
+# ------------------------------------------------------------------ thin boards, one dimension around a power of two
+
+THIN_AST = {"Rooms": ("rooms", False, False), "ValuedRooms": ("vrooms", ("hexint",), False, False)}
+THIN_CODECS = ("lits", "norinori", "heyawake", "Rooms", "ValuedRooms")
+MODEL_MAX_CELLS = 4100     # the Lean Rooms decoder is superlinear: ~0.3 s at 4100 cells, ~3 s at 12300
+
+
+def thin_text(codec, h, w, cuts):
+    """valid text of a Rooms-based codec on the h x w board cut into len(cuts) + 1 slabs (URL for a puzzle codec)"""
+    body = sc.slab_border_text(h, w, cuts)
+    k = len(cuts) + 1
+    if codec == "heyawake":
+        body += chr(ord("g") + k - 1)            # k rooms without a clue
+    if codec == "ValuedRooms":
+        body += "123456789abcdef"[:k]
+    if codec in THIN_AST:
+        return body
+    return "https://puzz.link/p?%s/%d/%d/%s" % (codec, w, h, body)
+
+
+def thin_cases():
+    """Deterministic: long side d around 2**8 .. 2**12, short side 1..3, both orientations, every Rooms-based codec;
+    body without borders and body with a few slabs.  For d >= 2047 the slab body only on the one-line boards."""
+    out = []
+    for d in sc.POW2_DIMS:
+        for o in (1, 2, 3):
+            for (h, w) in ((o, d), (d, o)):
+                for cuts in ((), tuple(sc.slab_cuts(d))):
+                    if cuts and d > 1025 and o > 1:
+                        continue
+                    for codec in THIN_CODECS:
+                        out.append((codec, h, w, cuts))
+    return out
+
+
+def _cells_of(v, codec):
+    """the rooms of a decoded problem of `codec`, or None if it does not have the documented shape"""
+    try:
+        if codec in ("lits", "norinori", "heyawake"):
+            hh, ww, v = v
+        rooms = v[0] if codec in ("heyawake", "ValuedRooms") else v
+        return [tuple(c) for r in rooms for c in r]
+    except (TypeError, ValueError, IndexError):
+        return None
+
+
+def judge_thin(objs, codec, h, w, text):
+    """The property on one Rooms-based codec: None / ValueError, or a problem OF THE STATED DIMENSIONS (every cell of the
+    h x w board in exactly one room; the returned size is the declared one) that serializes and decodes back to itself."""
+    import cspuz.problem_serializer as ps
+    shown = text if len(text) <= 120 else "%s...%s (%d characters; in full in the replay file)" % (text[:80], text[-12:], len(text))
+    if codec in THIN_AST:
+        obj = sc.build(THIN_AST[codec])
+        decode = lambda t: ps.deserialize_problem(obj, t, height=h, width=w)
+        encode = lambda v: ps.serialize_problem(obj, v, height=h, width=w)
+        call = "deserialize_problem(%s, %r, height=%d, width=%d)" % (sc.comb_sx(obj), shown, h, w)
+    else:
+        mod, comb, ser, de = objs[codec]
+        decode = de
+        encode = lambda v: ps.serialize_problem_as_url(comb, codec, h, w, v[2])
+        call = "deserialize_%s(%r)" % (codec, shown)
+    o = sc.run_guarded(lambda: decode(text), 10)
+    bad = None
+    if o[0] == "diverge":
+        bad = ("non-termination", "does not terminate")
+    elif o[0] == "err":
+        if o[1] not in ALLOWED_ERR:
+            bad = ("exception:" + o[1], "raises " + o[1])
+    elif o[1] is not None:
+        v = o[1]
+        cells = _cells_of(v, codec)
+        if cells is None or (codec not in THIN_AST and (v[0], v[1]) != (h, w)) or \
+                sorted(cells) != [(y, x) for y in range(h) for x in range(w)]:
+            return "rooms:decoded-problem-has-other-dimensions", "%s returns a problem that is not a partition of the %d x %d board (%d cells listed)" % (
+                call, h, w, -1 if cells is None else len(cells))
+        e = sc.run_guarded(lambda: encode(v), 10)
+        if e[0] != "ret" or not isinstance(e[1], str):
+            bad = ("not-reencodable", "returns a problem whose serialization %s" % ("raises " + e[1] if e[0] == "err" else "fails"))
+        else:
+            o2 = sc.run_guarded(lambda: decode(e[1]), 10)
+            if o2[0] != "ret" or _typed(o2[1]) != _typed(v):
+                bad = ("reencoding-differs", "returns a problem whose canonical text %r decodes differently" % (e[1][:80],))
+    if not bad:
+        return None
+    return "rooms:long-thin-board:" + bad[0], call + " " + bad[1]
+
+
 def _kind(ro):
     if ro.startswith("(err"):
         return ro.strip("()").replace(" ", ":")
@@ -210,6 +297,27 @@ def correspond(ctx):
                     add("dep", "(dep %s %s %d %d)" % (sx, sc.cps(t), h, w),
                         (lambda obj=obj, t=t, h=h, w=w: ps.deserialize_problem(obj, t, height=h, width=w)), sc.val_outcome,
                         {"fn": "deserialize_problem", "term": sx, "text": t, "h": h, "w": w})
+    # ---- 1b. thin boards with one side around a power of two (deterministic family `thin_cases`; every case goes through
+    # the property oracle in step 4): the model comparison takes, per long side and orientation, one case drawn by the PRNG
+    # among those the Lean decoder handles quickly
+    thin_model = []
+    for d in sc.POW2_DIMS:
+        for wide in (True, False):
+            o = rng.choice([o for o in (1, 2, 3) if o * d <= MODEL_MAX_CELLS])
+            h, w = (o, d) if wide else (d, o)
+            thin_model.append((rng.choice(THIN_CODECS), h, w, rng.choice([(), tuple(sc.slab_cuts(d))])))
+    for tc, h, w, cuts in thin_model:
+        if tc in THIN_AST:
+            ast = THIN_AST[tc]
+            obj = sc.build(ast)
+            sx = sc.comb_sx(obj)
+            objs_by_sx[sx] = obj
+            ast_by_sx[sx] = ast
+            t = thin_text(tc, h, w, cuts)
+            ctx.count("text:thin-pow2")
+            add("dep", "(dep %s %s %d %d)" % (sx, sc.cps(t), h, w),
+                (lambda obj=obj, t=t, h=h, w=w: ps.deserialize_problem(obj, t, height=h, width=w)), sc.val_outcome,
+                {"fn": "deserialize_problem", "term": sx, "text": t, "h": h, "w": w})
     # ---- 2. URL layer on puzzle combinators and deserialize_<puzzle>
     names = [objs[p][0].__name__.split(".")[-1] for p in sc.PUZZLES] + ["slither"]
     psx = {p: sc.comb_sx(objs[p][1]) for p in sc.PUZZLES}
@@ -235,6 +343,9 @@ def correspond(ctx):
         if p in ("lits", "norinori", "heyawake"):
             for n in (30, 45, 60, 70):
                 urls.append((p, "https://puzz.link/p?%s/%d/%d/%s" % (p, n, n, "0" * (2 * ((n * (n - 1) + 4) // 5)) + "g" * 40), "big-no-borders"))
+    for tc, th, tw, cuts in thin_model:
+        if tc not in THIN_AST:
+            urls.append((tc, thin_text(tc, th, tw, cuts), "thin-pow2"))
     for _ in range(ctx.n(2000, 15000)):
         urls.append((rng.choice(sc.PUZZLES), random_url(rng, names), "random-url"))
     for p, u, how in urls:
@@ -343,6 +454,15 @@ def correspond(ctx):
             data["sig"] = j[0]
             ctx.prop_failures.append((j[0], j[1], data))
             ctx.disagree("property:" + j[0], what=j[1])
+    for (tc, h, w, cuts) in thin_cases():
+        ctx.count("oracle:thin-pow2")
+        text = thin_text(tc, h, w, cuts)
+        j = judge_thin(objs, tc, h, w, text)
+        ctx.case({"fn": "property-oracle", "codec": tc, "h": h, "w": w, "slabs": len(cuts) + 1}, ("thin", tc, h, w, len(cuts)))
+        if j:
+            ctx.count("oracle:FAIL")
+            ctx.prop_failures.append((j[0], j[1], {"kind": "thin", "codec": tc, "h": h, "w": w, "text": text, "sig": j[0]}))
+            ctx.disagree("property:" + j[0], what=j[1][:400] + (" ..." if len(j[1]) > 400 else ""))
     # regenerated puzzle table (the one the theorems were instantiated on in this build)
     sc.check_puzzle_table(ctx, drv, objs)
 
@@ -651,6 +771,9 @@ def replay(ctx, data):
         if o[0] == "diverge" or (o[0] == "err" and o[1] not in ALLOWED_ERR):
             return Finding(data["sig"], "still fails: %s" % (o,), data)
         return None
+    if k == "thin":
+        j = judge_thin(sc.puzzle_objects(), data["codec"], data["h"], data["w"], data["text"])
+        return Finding(data["sig"], "still fails: " + j[1][:400], data) if j else None
     if k == "url":
         objs = sc.puzzle_objects()
         mod, comb, ser, de = objs[data["puzzle"]]
